@@ -2022,7 +2022,7 @@ impl<const MIN_ALIGN: usize> Bump<MIN_ALIGN> {
                 .max(min_new_chunk_size);
             let chunk_memory_details = iter::from_fn(|| {
                 let bypass_min_chunk_size_for_small_limits = matches!(self.allocation_limit(), Some(limit) if layout.size() < limit
-                            && base_size >= layout.size()
+                            && base_size >= layout.size().max(1)
                             && limit < DEFAULT_CHUNK_SIZE_WITHOUT_FOOTER
                             && self.allocated_bytes() == 0);
 
